@@ -509,6 +509,7 @@ META = {
 # scheduler-level stream: the pool automaton (Model/Pool.v) accepts every real run; see Props/C05.v (pool theorems)
 from vp.sched.stream import SchedStream  # noqa: E402
 STREAMS.append(SchedStream('C05', name="sched-queues", feat={'queues': True, 'hold': True, 'retries': True}, n_quick=28, n_thorough=500))
+STREAMS.append(SchedStream('C05', name="sched-queues-slow-submit", feat={'queues': True, 'submit_delay': True}, n_quick=24, n_thorough=500))
 META["level_text"] += (" Scheduler level: every real run of generated workflows with queue limits, holds and retries must be "
                        "accepted by the pool automaton (Model/Pool.v), whose accepted releases are proved to respect every "
                        "queue limit counting active and released-awaiting-preparation members, never to release a held task, "
